@@ -28,6 +28,12 @@ func verifMsgSummary(ms []verifWSMsg) [][3]interface{} {
 
 func verifGenMsg(rng *verifRng, i int) verifWSMsg {
 	texts := []string{"", "a", "hello world", "café ✓ \U0001F600", "<script>&\"quotes\"'\\ \n\t", "{\"json\":[1,2,3]}", "\u0000ctl\u001f", strings.Repeat("t", 5000)}
+	// corpus at fixed positions of every stream (client->server 1.., server->client 1000..): text that looks like JSON
+	// escapes, which must arrive as the characters they are
+	escapes := []string{`a \u003c b`, `C:\users\u0026me`, `{"text":"a \u003e b \u0026 c"}`, `\\u003c`, `\"quoted\"`, `line\nfeed`, "\u2028\u2029", `</script><!--`}
+	if k := i % 1000; k >= 1 && k <= len(escapes) {
+		return verifWSMsg{Type: websocket.TextMessage, Data: []byte(escapes[k-1])}
+	}
 	if rng.intn(2) == 0 {
 		t := texts[rng.intn(len(texts))]
 		if rng.intn(20) == 0 {
